@@ -13,12 +13,20 @@
 (***************************************************************************)
 EXTENDS Naturals, Sequences, FiniteSets
 
-CONSTANTS Callers, Images, MaxReq      \* MaxReq: requests per caller
+CONSTANTS Callers, Images, MaxReq,     \* MaxReq: requests per caller
+          KeyByRepo                    \* FALSE = the code: the in-flight map is keyed by the image reference. TRUE (negative
+                                       \* control, seeded change C20 round 5): keyed by the repository - two tags share an entry
 
-VARIABLES inflight,   \* [Images -> Seq(Callers)] registered receivers; <<>> + ~has means no entry
-          has,        \* [Images -> BOOLEAN] the image has an entry in the in-flight map
-          pulling,    \* [Images -> Nat] pulls currently inside the pull function
-          result,     \* [Images -> Nat] id of the pull result waiting to be broadcast (0 = none)
+\* the key under which an image is registered in the in-flight map
+Key(i) == IF KeyByRepo THEN "repo" ELSE i
+Keys == { Key(i) : i \in Images }
+
+VARIABLES inflight,   \* [Keys -> Seq(Callers)] registered receivers; <<>> + ~has means no entry
+          has,        \* [Keys -> BOOLEAN] the key has an entry in the in-flight map
+          pulling,    \* [Keys -> Nat] pulls currently inside the pull function
+          result,     \* [Keys -> Nat] id of the pull result waiting to be broadcast (0 = none)
+          imgOf,      \* Seq(Images): the image pull number n fetches
+          asked,      \* [Callers -> Seq(<<image asked for, pull id received>>)]
           pullSeq,    \* pulls started so far
           wait,       \* [Callers -> image the caller is blocked on, or ""]
           mailbox,    \* [Callers -> Seq(pull ids)] the caller's buffered channel
@@ -26,10 +34,11 @@ VARIABLES inflight,   \* [Images -> Seq(Callers)] registered receivers; <<>> + ~
           reqs,       \* [Callers -> Nat] requests issued
           regAt       \* [Callers -> pull ids in flight when the caller registered]
 
-vars == <<inflight, has, pulling, result, pullSeq, wait, mailbox, got, reqs, regAt>>
+vars == <<inflight, has, pulling, result, imgOf, asked, pullSeq, wait, mailbox, got, reqs, regAt>>
 
-Init == /\ inflight = [ i \in Images |-> <<>> ] /\ has = [ i \in Images |-> FALSE ]
-        /\ pulling = [ i \in Images |-> 0 ] /\ result = [ i \in Images |-> 0 ] /\ pullSeq = 0
+Init == /\ inflight = [ i \in Keys |-> <<>> ] /\ has = [ i \in Keys |-> FALSE ]
+        /\ pulling = [ i \in Keys |-> 0 ] /\ result = [ i \in Keys |-> 0 ] /\ pullSeq = 0
+        /\ imgOf = <<>> /\ asked = [ c \in Callers |-> <<>> ]
         /\ wait = [ c \in Callers |-> "" ] /\ mailbox = [ c \in Callers |-> <<>> ]
         /\ got = [ c \in Callers |-> <<>> ] /\ reqs = [ c \in Callers |-> 0 ] /\ regAt = [ c \in Callers |-> 0 ]
 
@@ -38,23 +47,25 @@ CurPull(i) == pullSeq
 
 Register(c, i) ==
     /\ wait[c] = "" /\ reqs[c] < MaxReq
-    /\ IF ~has[i]
-         THEN /\ pullSeq' = pullSeq + 1
-              /\ pulling' = [ pulling EXCEPT ![i] = @ + 1 ]
-              /\ regAt' = [ regAt EXCEPT ![c] = pullSeq + 1 ]
-         ELSE /\ UNCHANGED <<pullSeq, pulling>>
-              /\ regAt' = [ regAt EXCEPT ![c] = IF result[i] # 0 THEN result[i] ELSE regAt[Head(inflight[i])] ]
-    /\ has' = [ has EXCEPT ![i] = TRUE ]
-    /\ inflight' = [ inflight EXCEPT ![i] = Append(@, c) ]
+    /\ LET k == Key(i) IN
+       /\ IF ~has[k]
+            THEN /\ pullSeq' = pullSeq + 1
+                 /\ imgOf' = Append(imgOf, i)                     \* the pull goroutine pulls the image it was started for
+                 /\ pulling' = [ pulling EXCEPT ![k] = @ + 1 ]
+                 /\ regAt' = [ regAt EXCEPT ![c] = pullSeq + 1 ]
+            ELSE /\ UNCHANGED <<pullSeq, pulling, imgOf>>
+                 /\ regAt' = [ regAt EXCEPT ![c] = IF result[k] # 0 THEN result[k] ELSE regAt[Head(inflight[k])] ]
+       /\ has' = [ has EXCEPT ![k] = TRUE ]
+       /\ inflight' = [ inflight EXCEPT ![k] = Append(@, c) ]
     /\ wait' = [ wait EXCEPT ![c] = i ]
     /\ reqs' = [ reqs EXCEPT ![c] = @ + 1 ]
-    /\ UNCHANGED <<result, mailbox, got>>
+    /\ UNCHANGED <<result, mailbox, got, asked>>
 
 PullReturn(i) ==
     /\ pulling[i] > 0 /\ result[i] = 0
     /\ pulling' = [ pulling EXCEPT ![i] = @ - 1 ]
     /\ result' = [ result EXCEPT ![i] = regAt[Head(inflight[i])] ]
-    /\ UNCHANGED <<inflight, has, pullSeq, wait, mailbox, got, reqs, regAt>>
+    /\ UNCHANGED <<inflight, has, pullSeq, wait, mailbox, got, reqs, regAt, imgOf, asked>>
 
 Broadcast(i) ==
     /\ result[i] # 0
@@ -62,25 +73,26 @@ Broadcast(i) ==
     /\ inflight' = [ inflight EXCEPT ![i] = <<>> ]
     /\ has' = [ has EXCEPT ![i] = FALSE ]
     /\ result' = [ result EXCEPT ![i] = 0 ]
-    /\ UNCHANGED <<pulling, pullSeq, wait, got, reqs, regAt>>
+    /\ UNCHANGED <<pulling, pullSeq, wait, got, reqs, regAt, imgOf, asked>>
 
 Receive(c) ==
     /\ wait[c] # "" /\ mailbox[c] # <<>>
     /\ got' = [ got EXCEPT ![c] = Append(@, Head(mailbox[c])) ]
+    /\ asked' = [ asked EXCEPT ![c] = Append(@, << wait[c], Head(mailbox[c]) >>) ]
     /\ mailbox' = [ mailbox EXCEPT ![c] = Tail(@) ]
     /\ wait' = [ wait EXCEPT ![c] = "" ]
-    /\ UNCHANGED <<inflight, has, pulling, result, pullSeq, reqs, regAt>>
+    /\ UNCHANGED <<inflight, has, pulling, result, pullSeq, reqs, regAt, imgOf>>
 
 Next == \/ \E c \in Callers, i \in Images : Register(c, i)
-        \/ \E i \in Images : PullReturn(i) \/ Broadcast(i)
+        \/ \E i \in Keys : PullReturn(i) \/ Broadcast(i)
         \/ \E c \in Callers : Receive(c)
 
 Spec == Init /\ [][Next]_vars
-FairSpec == Spec /\ \A i \in Images : WF_vars(PullReturn(i)) /\ WF_vars(Broadcast(i))
+FairSpec == Spec /\ \A i \in Keys : WF_vars(PullReturn(i)) /\ WF_vars(Broadcast(i))
                  /\ \A c \in Callers : WF_vars(Receive(c))
 
 \* at most one registry pull per image in flight at a time
-Inv_C20_OnePullPerImage == \A i \in Images : pulling[i] <= 1
+Inv_C20_OnePullPerImage == \A i \in Keys : pulling[i] <= 1
 
 \* a caller never has more than one response pending, and receives exactly one response per request:
 \* the result of the pull that was in flight while it was registered
@@ -90,7 +102,10 @@ Inv_C20_ExactlyOneResponse ==
                        /\ (mailbox[c] # <<>> => Head(mailbox[c]) = regAt[c])
 
 \* a request arriving after the broadcast starts a fresh pull: an entry always has a pull behind it
-Inv_C20_EntryHasPull == \A i \in Images : has[i] => (pulling[i] = 1 \/ result[i] # 0)
+Inv_C20_EntryHasPull == \A i \in Keys : has[i] => (pulling[i] = 1 \/ result[i] # 0)
+
+\* what a caller receives is the content of the image it asked for
+Inv_C20_RightContent == \A c \in Callers : \A n \in DOMAIN asked[c] : imgOf[asked[c][n][2]] = asked[c][n][1]
 
 \* no lost wake-up: every registered caller eventually returns
 Live_C20_NoLostWakeup == \A c \in Callers : (wait[c] # "") ~> (wait[c] = "")
